@@ -470,3 +470,78 @@ package pongo2
 //@   invariant 0 {C01,C09} @one-wrapper-per-condition len(ifNode.conditions) >= 1 && len(ifNode.wrappers) + 1 >= len(ifNode.conditions)
 //@ func (*Template).newContextForExecution
 //@   ensures {C01} @error-type r2 != nil ==> typeis(r2, "*Error")
+
+// ---- data filters (C18) ----
+//@ func AsValue
+//@   flag returns-fresh
+//@   ensures fresh(r0) && r0 != nil && r0.val == RVOf(i) && !r0.safe
+//@ func AsSafeValue
+//@   flag returns-fresh
+//@   ensures fresh(r0) && r0 != nil && r0.val == RVOf(i) && r0.safe
+// the accessors of a Value depend only on the wrapped reflect.Value (abstraction, ASSUMED: clauses labelled assume-)
+//@ spec RVIntegerOf(rv reflect.Value) int
+//@ spec RVStringOf(rv reflect.Value) string
+//@ spec RVFloatOf(rv reflect.Value) float64
+//@ spec RVLenOf(rv reflect.Value) int
+//@ spec RVIsTrueOf(rv reflect.Value) bool
+//@ func (*Value).Integer
+//@   ensures @assume-depends-on-val r0 == RVIntegerOf(v.val)
+//@ func (*Value).String
+//@   ensures @assume-depends-on-val r0 == RVStringOf(v.val)
+//@ func (*Value).Float
+//@   ensures @assume-depends-on-val r0 == RVFloatOf(v.val)
+//@ func (*Value).Len
+//@   ensures @assume-depends-on-val r0 == RVLenOf(v.val)
+//@ func (*Value).IsTrue
+//@   ensures @assume-depends-on-val r0 == RVIsTrueOf(v.val)
+//@ extern strings.TrimSpace(s) (r0)
+//@   pure as StrTrimSpace
+//@ extern strings.Repeat(s, count) (r0)
+//@   requires {C01} @non-negative count >= 0
+//@   ensures len(r0) == len(s) * count
+
+// slice: Python slicing
+//@ spec pyLo(n int, a int) int = ite(a < 0, max(n + a, 0), min(a, n))
+//@ spec pyHi(n int, lo int, hasB bool, b int) int = max(lo, ite(!hasB, n, ite(b < 0, max(n + b, 0), min(b, n))))
+//@ func filterSlice
+//@   at (*Value).Slice requires {C18} @python-bounds arg1 == pyLo(VLen(in), RVIntegerOf(RVOf(box(comp[0])))) && arg2 == pyHi(VLen(in), arg1, StrTrimSpace(comp[1]) != "", RVIntegerOf(RVOf(box(comp[1]))))
+//@   ensures {C18} @result-is-that-slice (r1 == nil && VCanSlice(in)) ==> r0 == lastresult("(*Value).Slice")
+//@   ensures {C18} @not-sliceable-unchanged (r1 == nil && !VCanSlice(in)) ==> r0 == in
+//@ func filterFirst
+//@   at (*Value).Index requires {C18} @index-zero arg0 == in && arg1 == 0
+//@   ensures {C18} @first-item (VCanSlice(in) && VLen(in) > 0) ==> r0 == lastresult("(*Value).Index")
+//@   ensures {C18} @empty-gives-empty-string !(VCanSlice(in) && VLen(in) > 0) ==> r0.val == RVOf(box(""))
+//@ func filterLast
+//@   at (*Value).Index requires {C18} @index-len-minus-one arg0 == in && arg1 == VLen(in) - 1
+//@   ensures {C18} @last-item (VCanSlice(in) && VLen(in) > 0) ==> r0 == lastresult("(*Value).Index")
+//@   ensures {C18} @empty-gives-empty-string !(VCanSlice(in) && VLen(in) > 0) ==> r0.val == RVOf(box(""))
+//@ func filterLength
+//@   ensures {C18} @length r1 == nil && r0.val == RVOf(box(VLen(in)))
+//@ func filterLengthis
+//@   ensures {C18} @length-is r1 == nil && r0.val == RVOf(box(VLen(in) == VInteger(param)))
+//@ func filterDefault
+//@   ensures {C18} @default r1 == nil && r0 == ite(VIsTrue(in), in, param)
+//@ func filterDefaultIfNone
+//@   ensures {C18} @default-if-none r1 == nil && r0 == ite(VIsNil(in), param, in)
+//@ func filterDivisibleby
+//@   ensures {C18} @zero-divisor-is-false VInteger(param) == 0 ==> (r1 == nil && r0.val == RVOf(box(false)))
+//@   ensures {C18} @divisible VInteger(param) != 0 ==> (r1 == nil && r0.val == RVOf(box(VInteger(in) % VInteger(param) == 0)))
+//@ func filterAdd
+//@   ensures {C18} @integers (VIsNumber(in) && VIsNumber(param) && !VIsFloat(in) && !VIsFloat(param)) ==> r0.val == RVOf(box(wrap64(VInteger(in) + VInteger(param))))
+//@   ensures {C18} @floats (VIsNumber(in) && VIsNumber(param) && (VIsFloat(in) || VIsFloat(param))) ==> r0.val == RVOf(box(VFloat(in) + VFloat(param)))
+//@   ensures {C18} @strings !(VIsNumber(in) && VIsNumber(param)) ==> r0.val == RVOf(box(VString(in) + VString(param)))
+//@ func filterInteger
+//@   ensures {C18} @integer r0.val == RVOf(box(VInteger(in)))
+//@ func filterFloat
+//@   ensures {C18} @float r0.val == RVOf(box(VFloat(in)))
+//@ func filterWordcount
+//@   ensures {C18} @wordcount r0.val == RVOf(box(len(lastresult("strings.Fields"))))
+// center / ljust / rjust: pad with spaces only, on the stated side(s), never beyond the cap
+//@ func filterCenter
+//@   ensures {C18} @fits-unchanged VInteger(param) <= VLen(in) ==> (r0 == in && r1 == nil)
+//@   ensures {C18} @cap (VInteger(param) > VLen(in) && VInteger(param) - VLen(in) > 10000) ==> r1 != nil
+//@   at strings.Repeat#0 requires {C18} @left-gets-the-odd-space arg0 == " " && arg1 == (VInteger(param) - VLen(in) + 1) / 2
+//@   at strings.Repeat#1 requires {C18} @right-half arg0 == " " && arg1 == (VInteger(param) - VLen(in)) / 2
+//@ func filterLjust
+//@   at strings.Repeat requires {C18} @pads-to-width arg0 == " " && arg1 == max(VInteger(param) - VLen(in), 0)
+//@   ensures {C18} @no-error-when-it-fits VInteger(param) <= VLen(in) ==> r1 == nil
